@@ -22,10 +22,10 @@ func init() {
 				Flavours: []string{"plain", "cover"},
 				Blocks:   16,
 				Procs:    16,
-				Rule: "case = (Left, Right, n). Exhaustive: every pair of line sequences over alphabet 2 x length <= 8, alphabet 3 x length <= 5 and alphabet 4 x length <= 4 (alphabet 2 x length <= 9, alphabet 3 x length <= 6 in thorough), each with every context size n in 0..5 (so n exceeds every gap for short inputs); random repetitive inputs of up to 60 lines with n in 0..8; context sizes 1000, 2^31, 2^40, MaxInt-1 and MaxInt; inputs that are windows of one shared backing array; the F4 witnesses as regression cases. " +
+				Rule: "case = (Left, Right, n). Exhaustive: every pair of line sequences over alphabet 2 x length <= 8, alphabet 3 x length <= 5 and alphabet 4 x length <= 4 (alphabet 2 x length <= 9, alphabet 3 x length <= 6 in thorough), each with every context size n in 0..5 (so n exceeds every gap for short inputs); random repetitive inputs of up to 60 lines with n in 0..8; context sizes 1000, 2^31, 2^40, MaxInt-1 and MaxInt; inputs that are windows of one shared backing array; very large inputs (4100..11700 lines a side, 16400 and 23200 in thorough: length products past 2^24..2^29) whose seam repeats (one of two adjacent identical blocks removed or added), with the middle replaced, with nothing in common at the ends, and with scattered edits; the F4 witnesses as regression cases. " +
 					"At each of the three stages every chunk's edits are interpreted against Left[LStart,LEnd) and Right[RStart,REnd); leading/trailing context <= n; after New and after Unify chunks ascending and disjoint (after Unify also not adjacent) and replacing each left range by the chunk's output yields Right; Edits deep-equals its value after New and is itself a correct script; Left/Right are not modified. " +
 					"distinct = enumerated (Left, Right, n) triples, random ones by hash; non-trivial = New produced >= 2 chunks and n >= 1 (context of neighbouring chunks can interact)",
-				Required:     []string{"triples", "multi_chunk_triples", "merged_by_unify", "n_exceeds_gap", "f4_witnesses", "aliased_input_triples", "huge_n_triples"},
+				Required:     []string{"triples", "multi_chunk_triples", "merged_by_unify", "n_exceeds_gap", "f4_witnesses", "aliased_input_triples", "huge_n_triples", "very_large_input_triples"},
 				Exhaustive:   true,
 				Assumptions:  []string{"chunk interpreter written from the Chunk field documentation (1-based half-open ranges)"},
 				CoverPkgs:    []string{"github.com/creachadair/mds/mdiff"},
@@ -285,6 +285,60 @@ func runC13(c *fw.Ctx) {
 		c.Evals(n64)
 		c.Add("triples", n64)
 		c.SeenEnum(n64)
+	}
+	// very large inputs: the product of the lengths passes 2^24, 2^26, 2^27 (and
+	// 2^28, 2^29 in thorough), with seams that repeat (one of two adjacent
+	// identical blocks removed or added), plain replacements and scattered edits
+	{
+		sizes := []int{4100, 8200, 11700}
+		if c.Thorough() {
+			sizes = append(sizes, 16400, 23200)
+		}
+		shapes := 6
+		for k := 0; k < len(sizes)*shapes; k++ {
+			if k%c.NBlocks != c.Block || !c.Begin(idx+3000000+k) {
+				continue
+			}
+			size, shape := sizes[k/shapes], k%shapes
+			blk := func(tag string, n, period int) []string {
+				out := make([]string, n)
+				for i := range out {
+					out[i] = fmt.Sprint(tag, i%period)
+				}
+				return out
+			}
+			cat := func(parts ...[]string) []string {
+				var out []string
+				for _, p := range parts {
+					out = append(out, p...)
+				}
+				return out
+			}
+			A, B, C := blk("a", size/3, 97), blk("b", size/3, 13), blk("c", size/3+size%3, 7)
+			var left, right []string
+			switch shape {
+			case 0: // one of two adjacent identical blocks removed
+				left, right = cat(A, B, B, C), cat(A, B, C)
+			case 1: // ... or added
+				left, right = cat(A, B, C), cat(A, B, B, C)
+			case 2: // the middle replaced
+				left, right = cat(A, B, C), cat(A, blk("x", size/3, 5), C)
+			case 3: // nothing in common at either end
+				left, right = cat(B, A, C, []string{"l"}), cat([]string{"r"}, A, C, B)
+			case 4: // a periodic text shortened from inside
+				left, right = cat(B, B, B), cat(B, B[:len(B)/2], B)
+			default: // scattered point edits
+				left = cat(A, B, C)
+				right = append([]string(nil), left...)
+				for i := 50; i < len(right); i += 997 {
+					right[i] = "edited"
+				}
+			}
+			c13check(c, left, right, []int{0, 3, 1}[k%3])
+			c.Add("very_large_input_triples", 1)
+			c.Add("triples", 1)
+			c.Max("max:length_product", int64(len(left))*int64(len(right)))
+		}
 	}
 	nr := c.Pick(4000, 400000)
 	for k := 0; k < nr; k++ {
